@@ -1,6 +1,7 @@
 package zv
 
 import (
+	"regexp"
 	"fmt"
 	"go/token"
 	"go/types"
@@ -173,7 +174,7 @@ func c12Rules(c *Ctx, r1, r2, r3, r4, r5 string) {
 			entry[initFn.String()] = true
 		}
 		guardedBy(c, r1, bws, bwsGuarded, "mu", entry, func(a Access) string {
-			if a.Fn == loop && !a.Write && (a.Field == "ticker" || a.Field == "stop" || a.Field == "done") {
+			if (a.Fn == loop || onlyCalledFrom(a.Fn, loop, 0)) && !a.Write && (a.Field == "ticker" || a.Field == "stop" || a.Field == "done") {
 				return "flushLoop reads ticker/stop/done, which are written once in initialize before the go statement that starts it (happens-before) and never again"
 			}
 			if a.Fn == stop && !a.Write && a.Field == "done" && len(Guards(a.Instr)) > 0 {
@@ -490,40 +491,90 @@ func c12Rules(c *Ctx, r1, r2, r3, r4, r5 string) {
 			}
 		})
 		c.Check(deferClose, r5, name, "closes-done", loop.Pos(), "done is closed by a deferred close at entry, so Stop's wait always ends")
-		var sel *ssa.Select
-		AllInstrs(loop, func(i ssa.Instruction) {
-			if s, ok := i.(*ssa.Select); ok {
-				sel = s
-			}
+		// Path exploration of the loop (helpers inline, two rounds): what each select outcome leads to
+		cut := 0
+		seqs, trunc := ConcPaths(loop, ConcCfg{
+			MaxIter: 2, Cut: &cut,
+			Event: func(in ssa.Instruction, st *ConcState) string {
+				switch x := in.(type) {
+				case *ssa.Call:
+					if IsCallTo(x, "(*go.uber.org/zap/zapcore.BufferedWriteSyncer).Sync") {
+						return "sync"
+					}
+					if sc := StaticCallee(x); sc != nil && !Eligible(sc) && curProgRoot(sc) {
+						return "call:" + sc.Name()
+					}
+				case *ssa.Return:
+					return "ret"
+				}
+				return ""
+			},
+			Branch: func(cond ssa.Value, taken bool, st *ConcState) string {
+				pol := taken
+				for k := 0; k < 8; k++ {
+					if u, ok := cond.(*ssa.UnOp); ok && u.Op == token.NOT {
+						cond, pol = u.X, !pol
+						continue
+					}
+					if nx := st.Step(cond); nx != nil {
+						cond = nx
+						continue
+					}
+					break
+				}
+				bo, ok := cond.(*ssa.BinOp)
+				if !ok || bo.Op != token.EQL && bo.Op != token.NEQ {
+					return ""
+				}
+				x := Strip(bo.X)
+				for k := 0; k < 8; k++ {
+					if nx := st.Step(x); nx != nil {
+						x = Strip(nx)
+					}
+				}
+				ex, ok := x.(*ssa.Extract)
+				if !ok || ex.Index != 0 {
+					return ""
+				}
+				sel, ok := ex.Tuple.(*ssa.Select)
+				kk, isC := ConstInt(bo.Y)
+				if !ok || !isC || int(kk) >= len(sel.States) || kk < 0 {
+					return ""
+				}
+				d := st.Desc(sel.States[kk].Chan)
+				nm := "case?" + d
+				switch {
+				case strings.HasSuffix(d, ".ticker.C"):
+					nm = "tick"
+				case strings.HasSuffix(d, ".stop"):
+					nm = "stop"
+				}
+				if pol == (bo.Op == token.EQL) {
+					return nm
+				}
+				return "not-" + nm
+			},
 		})
-		if sel == nil || len(sel.States) != 2 {
-			c.Bad(r5, name, "select", loop.Pos(), "expected a two-way select on the ticker and the stop channel")
-		} else {
-			tickIdx, stopIdx := -1, -1
-			for k, st := range sel.States {
-				d := Desc(st.Chan)
-				if strings.HasSuffix(d, ".ticker.C") {
-					tickIdx = k
-				}
-				if strings.HasSuffix(d, ".stop") {
-					stopIdx = k
+		var bad []string
+		reLoop := regexp.MustCompile(`^(tick sync )*stop ret $`)
+		nOK := 0
+		for _, sq := range seqs {
+			var toks []string
+			for _, t := range strings.Split(sq, " ; ") {
+				if t != "" && !strings.HasPrefix(t, "not-") {
+					toks = append(toks, t)
 				}
 			}
-			idxD := Desc(sel) + "#0"
-			okTick, okStop := false, true
-			for _, cl := range Calls(loop) {
-				if IsCallTo(cl, "(*go.uber.org/zap/zapcore.BufferedWriteSyncer).Sync") {
-					okTick = HasAtom(Guards(cl), func(s string) bool { return s == idxD+" == "+itoa(tickIdx) })
-				}
+			if len(toks) > 0 && toks[len(toks)-1] == "panic" {
+				continue // "blocking select matched no case": not a path of the program
 			}
-			for _, r := range Returns(loop) {
-				if !HasAtom(Guards(r), func(s string) bool { return s == idxD+" == "+itoa(stopIdx) }) {
-					okStop = false
-				}
+			if reLoop.MatchString(strings.Join(toks, " ") + " ") {
+				nOK++
+			} else {
+				bad = append(bad, sq)
 			}
-			c.Check(tickIdx >= 0 && okTick, r5, name, "tick-syncs", sel.Pos(), "every tick calls s.Sync() (flush + sink sync); a cheaper substitute leaves the sink unsynced after a tick")
-			c.Check(stopIdx >= 0 && okStop && len(Returns(loop)) >= 1, r5, name, "exits-only-on-stop", sel.Pos(), "the loop's only exit is the stop case")
 		}
+		c.Check(!trunc && nOK > 0 && len(bad) == 0, r5, name, "loop-protocol", loop.Pos(), "over %d explored paths (two rounds, helpers inline; %d longer ones cut): each round waits on exactly the ticker and the stop channel; a tick is followed by s.Sync() (flush + sink sync) and another round, the stop case by returning - the loop's only exit: %v", len(seqs), cut, bad)
 		goes := 0
 		c.EachRootFunc(func(fn *ssa.Function) {
 			if fn.Pkg == nil || fn.Pkg.Pkg.Path() != CorePath {
@@ -619,4 +670,25 @@ func errSources(st *ConcState, v ssa.Value, classify func(*ssa.Call) string, dep
 		return errSources(st, nx, classify, depth+1)
 	}
 	return out
+}
+
+
+// onlyCalledFrom: f is an eligible helper every call site of which lies in root (or in another such helper).
+func onlyCalledFrom(f, root *ssa.Function, depth int) bool {
+	if f == root {
+		return true
+	}
+	if depth > 3 || !Eligible(f) {
+		return false
+	}
+	sites := sitesOf(f)
+	if len(sites) == 0 {
+		return false
+	}
+	for _, s := range sites {
+		if !onlyCalledFrom(s.Parent(), root, depth+1) {
+			return false
+		}
+	}
+	return true
 }
